@@ -11,7 +11,8 @@ RULE = (
     'properties are generated as model trees over every scope kind x pattern kind, with a simple event or a disjunction in each '
     'event position, aliases from {none, A, B} per simple event and references to @A, @B, @Z (never bound) or the own alias placed at '
     'top level, in a quantifier body or in a quantifier domain; plus quantifier-hygiene faults (unused variable, variable in its own '
-    'domain, nested re-binding; sibling reuse as negative control) and duplicate channels in a disjunction. Predicates are always '
+    'domain, nested re-binding; sibling reuse as negative control), a shadowing family (quantifier variables, aliases and free '
+    'references drawn from one pool of three names, nested to depth 3) and duplicate channels in a disjunction. Predicates are always '
     'well-typed, so sanity is the only possible reason for rejection. An independent scoping function decides accept / which clause is '
     'violated; the library must agree (HplSanityError vs success) on three construction routes: parsed text, API constructors, and '
     'but() from an accepted property. Small-scope part: all simple-event properties with one top-level reference per event are '
@@ -362,6 +363,71 @@ def gen_capture_case(ch):
     return {'m': m}
 
 
+SHADOW_NAMES = ('A', 'B', 'v')
+
+
+def _shadow_part(ch, bound, depth):
+    """One boolean part of a shadowing predicate. `bound`: names bound by enclosing quantifiers (for typing only:
+    such a name is a primitive variable, so it is used bare; any other name is used as a message, `@n.y`)."""
+    gt = lambda a, b: binop('>', a, b)  # noqa: E731
+    zero = ('lit', 'int', '0')
+
+    def use(n):
+        return ('var', n) if n in bound else ('field', ('var', n), 'y')
+
+    k = ch.int(0, 5) if depth > 0 else ch.int(0, 2)
+    if k == 0:
+        return gt(own('x'), zero)
+    if k in (1, 2):
+        return binop('<', own('x'), use(ch.pick(SHADOW_NAMES)))
+    # a quantifier whose variable is drawn from the same pool as the aliases
+    n = ch.pick(SHADOW_NAMES)
+    dom_alias = ch.pick([None, None, None] + [a for a in SHADOW_NAMES if a not in bound])
+    dom = own(ch.pick(['xs', 'ys'])) if dom_alias is None else ('field', ('var', dom_alias), 'ys')
+    inner = tuple(bound) + (n,)
+    bk = ch.int(0, 5)
+    if bk == 0:
+        body = gt(('var', n), zero)
+    elif bk == 1:
+        m = ch.pick(SHADOW_NAMES)
+        body = gt(('var', n), ('var', m) if m in inner else ('field', ('var', m), 'y'))
+    elif bk == 2:
+        body = binop(ch.pick(['and', 'or', 'implies']), gt(('var', n), zero), _shadow_part(ch, inner, depth - 1))
+    elif bk == 3:
+        body = binop(ch.pick(['and', 'or']), _shadow_part(ch, inner, depth - 1), gt(own('x'), ('var', n)))
+    elif bk == 4:
+        body = _shadow_part(ch, inner, depth - 1)  # the variable may end up unused
+    else:
+        body = ('un', 'not', gt(('var', n), own('x')))
+    return ('q', ch.pick(['forall', 'exists']), n, dom, body)
+
+
+def gen_shadow_case(ch):
+    """Quantifier variables, event aliases and free references drawn from one small pool of names: a name bound by a
+    quantifier is bound only inside that quantifier (a sibling or later use of the same name is a free reference that an
+    earlier event must bind), the domain of a quantifier is outside its own scope, and enclosing binders shadow aliases."""
+    sk = ch.pick(['globally', 'globally', 'after', 'after_until'])
+    pk = ch.pick(['absence', 'response', 'response', 'requirement', 'prevention'])
+
+    def simple(topic, with_pred):
+        alias = ch.pick([None] + list(SHADOW_NAMES))
+        pred = None
+        if with_pred:
+            parts = [_shadow_part(ch, (), 2) for _ in range(ch.int(1, 3))]
+            pred = parts[0]
+            for q in parts[1:]:
+                pred = binop(ch.pick(['and', 'and', 'or', 'implies']), pred, q)
+            if ch.int(0, 5) == 0:
+                pred = ('un', 'not', pred)
+        return ('ev', topic, alias, pred)
+
+    act = simple('p', False) if sk != 'globally' else None
+    term = simple('q', ch.bool()) if sk == 'after_until' else None
+    trig = simple('a', ch.int(0, 3) == 0) if pk != 'absence' else None
+    beh = simple('b', True)
+    return {'m': ('prop', (), ('scope', sk, act, term), ('pat', pk, trig, beh, None))}
+
+
 ###############################################################################
 # Small-scope exhaustive family: simple events, one top-level reference per event
 ###############################################################################
@@ -447,6 +513,14 @@ def shard(ctx, shard_no, nshards, n):
 
     with ctx.timed('hygiene'):
         core.run_hypothesis(ctx, 'hygiene', from_tape(gen_hygiene_case, 64), body_h, max(100, n // 5))
+
+    def body_s(inp):
+        w = sub_sanity(inp)
+        text = mast.render(inp['m'])
+        ctx.case(text, True, 'shadow:' + w, sample=text)
+
+    with ctx.timed('shadow'):
+        core.run_hypothesis(ctx, 'shadow', from_tape(gen_shadow_case, 128), body_s, max(200, n // 3))
 
     def body_c(inp):
         text = mast.render(inp['m'])
